@@ -7,6 +7,8 @@ PROP = dict(
         dict(module="MCRouter", cfg=dict(quick="MCRouter_quick.cfg", thorough="MCRouter_thorough.cfg"),
              timeout=dict(quick=600, thorough=3000)),
         dict(module="MCRouter", cfg="MCRouter_asbuilt.cfg", expect_violation="PropertyHolds", timeout=300),
+        dict(module="MCRouter", cfg="MCRouter_nul.cfg", timeout=600),
+        dict(module="MCRouter", cfg="MCRouter_mut_nul.cfg", expect_violation="PropertyHolds", timeout=300),
         dict(module="MCRouter", cfg="MCRouter_thorough3.cfg", timeout=3000, tiers=["thorough"]),
     ],
     level_text="The Router module states C05 declaratively (sound, complete, static, literal-wins, total, order-independent) "
@@ -22,7 +24,7 @@ PROP = dict(
     rule="case = one route table built in several insertion orders + the paths looked up in it; exhaustive part: "
          "every table of <=2 patterns from the pattern pool x every path up to the length bound over the byte "
          "alphabet incl. ':' '*' '#'; seeded part: random 3-record tables (all 6 orders) and random tables of up "
-         "to 300/3000 records with instantiated, mutated and arbitrary-byte paths. Non-trivial: the table has a "
+         "to 300/3000 records with instantiated, mutated and arbitrary-byte paths (incl. NUL, 0x01, 0xff; NUL also in patterns). Non-trivial: the table has a "
          "parameterised record and at least one lookup matched with parameters or missed; distinct by hash of the case.",
     assumptions=COMMON_ASSUME + [
         "patterns are well-formed: ':' / '*' only at the start of a segment (or after '=' for RESTCONF keys), '*' only in the last segment, no '#'",
